@@ -88,6 +88,7 @@ pub fn eval_one(profile: &str, ast: &Node, flags: Flags, hays: &[Hay], run: &Run
         return;
     }
     let pat = print::print(ast);
+    crate::subject::set_case_desc(format!("/{}/{} (C06/C15)", print::show(&pat), flags.to_string()));
     let mut digest: u64 = 0;
     let focus = FOCUS.load(std::sync::atomic::Ordering::Relaxed);
     let focused = focus != 0 && focus == h64(&(profile, &pat, flags));
